@@ -2074,6 +2074,68 @@ class Ev(object):
                 out += self.block(n.body if b else n.orelse, self._cp(env), s2)
         return out
 
+    def s_Match(self, n, env, st):
+        """match/case over the patterns an if-chain can express: literals and dotted constants, singletons, wildcards,
+        captures, or-patterns without captures, and fixed-length sequence patterns on a subject written as a tuple or
+        list display.  Desugared into `if` statements on a temporary holding the subject; anything else is outside
+        the analysable subset."""
+        where = "%s:%d" % (env["mod"].relpath, n.lineno)
+        tmp = "<match@%d>" % n.lineno
+        lit_seq = isinstance(n.subject, (ast.Tuple, ast.List)) and not any(isinstance(e, ast.Starred) for e in n.subject.elts)
+
+        def L(node):
+            return ast.copy_location(node, n)
+
+        def pat(p, subj, seq_ok):
+            """-> (test expr or None for 'always', [(name, expr)])"""
+            if isinstance(p, ast.MatchValue):
+                return L(ast.Compare(left=subj, ops=[ast.Eq()], comparators=[p.value])), []
+            if isinstance(p, ast.MatchSingleton):
+                return L(ast.Compare(left=subj, ops=[ast.Is()], comparators=[L(ast.Constant(value=p.value))])), []
+            if isinstance(p, ast.MatchAs):
+                if p.pattern is None:
+                    return None, ([(p.name, subj)] if p.name else [])
+                t, b = pat(p.pattern, subj, seq_ok)
+                return t, b + ([(p.name, subj)] if p.name else [])
+            if isinstance(p, ast.MatchOr):
+                tests = []
+                for q in p.patterns:
+                    t, b = pat(q, subj, seq_ok)
+                    if b:
+                        raise AnalysisError("%s: captures inside an or-pattern are not supported" % where)
+                    if t is None:
+                        return None, []
+                    tests.append(t)
+                return L(ast.BoolOp(op=ast.Or(), values=tests)), []
+            if isinstance(p, ast.MatchSequence) and seq_ok is not None and not any(isinstance(q, ast.MatchStar) for q in p.patterns):
+                if len(p.patterns) != seq_ok:
+                    return L(ast.Constant(value=False)), []
+                tests, binds = [], []
+                for i, q in enumerate(p.patterns):
+                    t, b = pat(q, L(ast.Subscript(value=subj, slice=L(ast.Constant(value=i)), ctx=ast.Load())), None)
+                    if t is not None:
+                        tests.append(t)
+                    binds += b
+                return (None if not tests else tests[0] if len(tests) == 1 else L(ast.BoolOp(op=ast.And(), values=tests))), binds
+            raise AnalysisError("%s: match pattern %s is outside the analysable subset" % (where, type(p).__name__))
+        subj = L(ast.Name(id=tmp, ctx=ast.Load()))
+        chain = None
+        for case in reversed(n.cases):
+            t, binds = pat(case.pattern, subj, len(n.subject.elts) if lit_seq else None)
+            if case.guard is not None:
+                if binds:
+                    raise AnalysisError("%s: a case guard together with captures is not supported" % where)
+                t = case.guard if t is None else L(ast.BoolOp(op=ast.And(), values=[t, case.guard]))
+            body = [L(ast.Assign(targets=[L(ast.Name(id=nm, ctx=ast.Store()))], value=ex)) for nm, ex in binds] + list(case.body)
+            if t is None:
+                chain = body
+            else:
+                chain = [L(ast.If(test=t, body=body, orelse=chain or []))]
+        prog = [L(ast.Assign(targets=[L(ast.Name(id=tmp, ctx=ast.Store()))], value=n.subject))] + (chain or [])
+        for x in prog:
+            ast.fix_missing_locations(x)
+        return self.block(prog, env, st)
+
     def s_FunctionDef(self, n, env, st):
         e2 = self._cp(env)
         fv = FuncV(n, env["mod"], closure=None if env.get("toplevel") else e2)
